@@ -75,6 +75,10 @@ bool dispatch::set_default(uintptr_t id)
 }
 void dispatch::set_error(event_handler_t cmd, void *arg)
 {
+	/* same handler stays installed */
+	if (_err.cmd == cmd && _err.arg == arg) {
+		return;
+	}
 	/* replace before notification: old handler may use the dispatcher */
 	event_handler_t old = _err.cmd;
 	void *ctx = _err.arg;
